@@ -135,3 +135,105 @@ Proof.
     fold (mprod n (map (sym_op n) fs)). fold (zprod (map (fun f => dz (snd f) x) fs)).
     rewrite (diag_symZ n (2 ^ n)); [|apply mprod_wf, Forall_sym_wf|assumption]. cbn [snd]. now rewrite IH.
 Qed.
+
+(* ---------------- signs *)
+Definition sg (bits : list bool) : Z := sgn (Nat.odd (count_true bits)).
+Lemma sg_cons b bits : sg (b :: bits) = ((if b then -1 else 1) * sg bits)%Z.
+Proof.
+  unfold sg, count_true. cbn [filter]. destruct b; cbn [length]; [|lia].
+  rewrite Nat.odd_succ, <- Nat.negb_odd. destruct (Nat.odd _); reflexivity.
+Qed.
+Lemma zprod_dz x (fs : list (pauli * nat)) : zprod (map (fun f => dz (snd f) x) fs) = (sg (map (fun q => nth q x false) (map snd fs)), 0%Z).
+Proof.
+  induction fs as [|[p q] fs IH]; [reflexivity|]. cbn [map zprod fold_right snd].
+  fold (zprod (map (fun f => dz (snd f) x) fs)). rewrite IH, sg_cons. unfold dz, zi_mul, zim1, zi1.
+  destruct (nth q x false); cbn [fst snd]; f_equal; lia.
+Qed.
+
+Lemma term_diag n t x : allZ (t_factors t) = true -> length x = n ->
+  fst (mget ZK (term_op n t) (idx x) (idx x)) =
+  (fst (t_coef t) * sg (map (fun q => nth q x false) (map snd (t_factors t))))%Z.
+Proof.
+  intros HZ Hx. unfold term_op, mono_op. cbn [fst snd]. rewrite (mget_mscale ZK ZL), diag_mprod, zprod_dz by assumption.
+  cbn [mul Ziops]. unfold zi_mul. cbn [fst snd]. lia.
+Qed.
+
+(* ---------------- key bits *)
+Lemma key_state_nth n key qmap q b : q < n -> key_bit key qmap q = Some b -> nth q (key_state n key qmap) false = b.
+Proof.
+  intros Hq E. unfold key_state.
+  rewrite (nth_indep _ false ((fun q => match key_bit key qmap q with Some b => b | None => false end) 0))
+    by (rewrite map_length, seq_length; lia).
+  rewrite (map_nth (fun q => match key_bit key qmap q with Some b => b | None => false end)), seq_nth by lia.
+  cbn [Nat.add]. now rewrite E.
+Qed.
+Lemma key_bits_all n key qmap qs : length key = length qmap ->
+  (forall q, In q qs -> In q qmap /\ q < n) ->
+  opt_all (map (key_bit key qmap) qs) = Some (map (fun q => nth q (key_state n key qmap) false) qs).
+Proof.
+  intros Lk H. apply opt_all_some. intros q Hq. destruct (H q Hq) as [Hm Hn].
+  destruct (key_bit_total key qmap (length qmap) q Lk eq_refl Hm) as (b & E). rewrite E.
+  now rewrite (key_state_nth n key qmap q b).
+Qed.
+
+(* ---------------- sums *)
+Definition zsum (l : list Z) : Z := fold_right Z.add 0%Z l.
+Lemma zsum_add {X} (f g : X -> Z) l : zsum (map (fun x => (f x + g x)%Z) l) = (zsum (map f l) + zsum (map g l))%Z.
+Proof. unfold zsum. induction l as [|x l IH]; cbn [map fold_right]; [reflexivity|]. rewrite IH. lia. Qed.
+Lemma zsum_scale {X} c (f : X -> Z) l : zsum (map (fun x => (c * f x)%Z) l) = (c * zsum (map f l))%Z.
+Proof. unfold zsum. induction l as [|x l IH]; cbn [map fold_right]; [lia|]. rewrite IH. lia. Qed.
+Lemma fst_zisum l : fst (zisum l) = zsum (map fst l).
+Proof. unfold zisum, zsum. induction l as [|x l IH]; cbn [map fold_right]; [reflexivity|]. unfold zi_add at 1. cbn [fst]. now rewrite IH. Qed.
+
+Definition ts_ok (n : nat) (qmap : list nat) (ts : list sterm) : Prop :=
+  forall t, In t ts -> allZ (t_factors t) = true /\ forall q, In q (map snd (t_factors t)) -> In q qmap /\ q < n.
+
+Theorem samples_terms n ts c fr qmap : ts_ok n qmap ts ->
+  Forall (fun kc : list bool * Z => length (fst kc) = length qmap) fr ->
+  sym_samples (ts, c) fr qmap =
+  Some (samples_spec n (terms_prod_matrix n (ts, c)) fr qmap, ftotal fr).
+Proof.
+  intros Hts Hfr. unfold sym_samples. cbn [fst snd].
+  assert (AZ : forallb (fun t => forallb (fun f => pauli_eqb (fst f) PZ) (t_factors t)) ts = true).
+  { apply forallb_forall. intros t Ht. apply (Hts t Ht). }
+  rewrite AZ. cbn [negb].
+  set (a := fun (t : sterm) (kc : list bool * Z) =>
+              (fst (t_coef t) * sg (map (fun q => nth q (key_state n (fst kc) qmap) false) (map snd (t_factors t))))%Z).
+  rewrite (opt_all_some _ (fun t => zsum (map (fun kc => (a t kc * snd kc)%Z) fr))).
+  - cbn [option_map]. f_equal. f_equal. unfold samples_spec, terms_prod_matrix. cbn [fst snd].
+    fold (zsum (map (fun t => zsum (map (fun kc => (a t kc * snd kc)%Z) fr)) ts)).
+    assert (D : forall kc, In kc fr ->
+       fst (mget ZK (madd ZK (msum ZK (map (term_op n) ts)) (mscale ZK c (midentity ZK n)))
+              (idx (key_state n (fst kc) qmap)) (idx (key_state n (fst kc) qmap)))
+       = (zsum (map (fun t => a t kc) ts) + fst c)%Z).
+    { intros kc Hk. set (x := key_state n (fst kc) qmap).
+      assert (Lx : length x = n) by (unfold x, key_state; now rewrite map_length, seq_length).
+      rewrite mget_madd, mget_msum, (mget_mscale ZK ZL), diag_identity by exact Lx.
+      unfold zi_add at 1. cbn [fst]. rewrite fst_zisum, !map_map. f_equal.
+      - f_equal. apply map_ext_in. intros t Ht. apply term_diag; [apply (Hts t Ht)|exact Lx].
+      - cbn [mul Ziops]. unfold zi_mul, zi1. cbn [fst snd]. lia. }
+    fold (zsum (map (fun kc : list bool * Z =>
+      (fst (mget ZK (madd ZK (msum ZK (map (term_op n) ts)) (mscale ZK c (midentity ZK n)))
+        (idx (key_state n (fst kc) qmap)) (idx (key_state n (fst kc) qmap))) * snd kc)%Z) fr)).
+    rewrite (map_ext_in _ (fun kc => ((zsum (map (fun t => a t kc) ts) + fst c) * snd kc)%Z))
+      by (intros kc Hk; now rewrite D).
+    clear D AZ Hts. unfold ftotal. fold (zsum (map snd fr)).
+    induction ts as [|t ts IH]; cbn [map].
+    + change (zsum []) with 0%Z. rewrite <- (zsum_scale (fst c) snd). cbn [Z.add]. f_equal.
+    + change (zsum (?x :: ?l)) with (x + zsum l)%Z.
+      rewrite <- Z.add_assoc, IH, <- zsum_add. f_equal. apply map_ext. intros kc.
+      change (zsum (a t kc :: map (fun t0 => a t0 kc) ts)) with (a t kc + zsum (map (fun t0 => a t0 kc) ts))%Z. lia.
+  - intros t Ht. destruct (Hts t Ht) as [HZ Hq].
+    rewrite (opt_all_some _ (fun kc : list bool * Z => (a t kc * snd kc)%Z)); [reflexivity|].
+    intros kc Hk. rewrite Forall_forall in Hfr. rewrite (key_bits_all n) by (auto using Hfr). reflexivity.
+Qed.
+
+Theorem samples_symbolic n f ms fr qmap :
+  Forall (smono_ok n) ms -> smonos_op n ms = denote n f ->
+  ts_ok n qmap (fst (terms_of ms)) ->
+  Forall (fun kc : list bool * Z => length (fst kc) = length qmap) fr ->
+  sym_samples (terms_of ms) fr qmap = Some (samples_spec n (denote n f) fr qmap, ftotal fr).
+Proof.
+  intros Hm E Hts Hfr. rewrite <- (terms_prod_ok n f ms Hm E).
+  rewrite (surjective_pairing (terms_of ms)) at 1 2. now apply samples_terms.
+Qed.
